@@ -34,7 +34,9 @@ NCounters == 14
 Chk(e, name, ok) == IF ok THEN TRUE ELSE PrintT(<<"BAD", e.sc, e.n, name>>)
 Cnt(i, cond) == IF cond THEN TLCSet(i, TLCGet(i) + 1) ELSE TRUE
 Counters == [i \in 1..NCounters |-> TLCGet(i)]
-Finish == IF l = Len(Rec) THEN PrintT(<<"COUNTS", Counters>>) /\ PrintT(<<"CONSUMED", l>>) ELSE TRUE
+\* TLC pretty-prints a value wider than 80 columns over several lines, which the line-oriented reader of
+\* bin/check would miss; a string with an escaped quote makes the pretty-printer give up and print one line
+Finish == IF l = Len(Rec) THEN PrintT(<<"COUNTS", Counters, "\"">>) /\ PrintT(<<"CONSUMED", l>>) ELSE TRUE
 
 LevelName == <<"ERROR", "WARN", "INFO", "DEBUG", "TRACE">>
 Base(f)   == CASE f = "cdefault" -> "default" [] f = "cdetailed" -> "detailed" [] f = "copt" -> "opt"
@@ -53,13 +55,14 @@ Init == /\ l = 1 /\ c = NoCfg /\ spec = [dflt |-> 0, m |-> -1] /\ dupe = 0 /\ du
 
 \* number of frames of the record that output `s` must hold, by the property C13
 Expect(D, W, s) == CASE s \in Names(W) -> D.got[s]
-                     [] s = "err" -> D.err
-                     [] s = "out" -> D.out
+                     [] s = "err" -> ExpErr(c.primary, D)
+                     [] s = "out" -> ExpOut(c.primary, D)
                      [] OTHER -> D.def          \* "file", "pw"
 Tgt(e)  == [brace |-> e.brace, toks |-> e.toks, plain |-> e.plain]
 Del(e)  == Deliver(c.writers, Tgt(e), e.lvl, e.mod, spec, dupe, dupo)
-\* the inner record of a recursive call: plain target "m", same level
-DelIn(e) == Deliver(c.writers, [brace |-> FALSE, toks |-> <<>>, plain |-> "m"], e.lvl, "m", spec, dupe, dupo)
+\* the inner record of a recursive call: its own target (default plain "m"), module "m", same level
+DelIn(e) == Deliver(c.writers, [brace |-> e.ibrace, toks |-> e.itoks, plain |-> e.iplain], e.lvl, "m",
+                    spec, dupe, dupo)
 
 \* frames output x must hold after a recursive call, in any order
 FramesRec(e, x) ==
